@@ -208,6 +208,19 @@ func outClass(md protoreflect.MessageDescriptor) string {
 // handler: if that works the finding key names the handler behaviour.
 func execC04(e *env, c *Case) (o outcome) {
 	o = execC04Once(e, c, c.Handler)
+	if c.Rule.Via == "config" {
+		// failures of the body / response_body selection on a rule that came
+		// through ServiceConfigOption name that in the key
+		cls := ":service-config-rule"
+		if c.Rule.Ann != nil && c.Rule.Ann.Tmpl == "" {
+			cls = ":service-config-rule-redeclaring-annotated-route"
+		}
+		for i, v := range o.viols {
+			if strings.HasPrefix(v.key, "c04:undecodable:") || strings.HasPrefix(v.key, "c04:wrong-reply:") || strings.HasPrefix(v.key, "c04:httpbody:") {
+				o.viols[i].key = keyFamily(v.key) + cls
+			}
+		}
+	}
 	if len(o.viols) > 0 && c.Handler != "" {
 		if o2 := execC04Once(e, c, ""); len(o2.viols) == 0 && o2.inconcl == "" {
 			hc := c.Handler
